@@ -36,13 +36,14 @@ var dirSuffixes = []string{"", "/x", "/x/y", "/z"}
 var fileNames = []string{"a", "b", "c"}
 
 type sim struct {
-	t     *rapid.T
-	e     *fdrv.Env
-	root  string
-	seq   int
-	clock int64
-	nodes []*fdrv.Node
-	hist  []string
+	t      *rapid.T
+	fatalf func(format string, args ...interface{})
+	e      *fdrv.Env
+	root   string
+	seq    int
+	clock  int64
+	nodes  []*fdrv.Node
+	hist   []string
 	// classification
 	shared                                                      bool
 	classes                                                     map[string]bool
@@ -391,7 +392,7 @@ func (s *sim) update(lbl string, n *fdrv.Node, via string) stepResult {
 	e := s.e
 	ent, err := e.Lookup(n.Path)
 	if err != nil || ent == nil {
-		t.Fatalf("lookup of listed file %s failed: %v\n%s", n.Path, err, s.history())
+		s.fatalf("lookup of listed file %s failed: %v\n%s", n.Path, err, s.history())
 	}
 	old := ent.Chunks
 	// which old chunks are kept, in which order
@@ -492,7 +493,7 @@ func (s *sim) history() string {
 func (s *sim) scan() {
 	nodes, err := s.e.Walk(s.root)
 	if err != nil {
-		s.t.Fatalf("scan failed: %v\n%s", err, s.history())
+		s.fatalf("scan failed: %v\n%s", err, s.history())
 	}
 	s.nodes = nodes
 }
@@ -506,83 +507,95 @@ func sortedKeys(m map[string]int) []string {
 	return out
 }
 
-// runHistory drives one history and checks the two halves of the property after every step.
-func runHistory(t *rapid.T) {
+// driver runs steps and checks the two halves of the property after every step.
+type driver struct {
+	s          *sim
+	ever       map[string]bool
+	everList   []string
+	nontrivial bool
+}
+
+func newDriver(fatalf func(format string, args ...interface{}), t *rapid.T) *driver {
 	e := fdrv.Get()
 	root, seq := e.NextCase()
-	s := &sim{t: t, e: e, root: root, seq: seq, classes: map[string]bool{}}
-	steps := rapid.IntRange(3, 14).Draw(t, "steps")
+	s := &sim{t: t, fatalf: fatalf, e: e, root: root, seq: seq, classes: map[string]bool{}}
 	s.scan()
-	nontrivial := false
-	ever := map[string]bool{}
-	var everList []string
-	for i := 0; i < steps; i++ {
-		before := e.Refs(s.nodes)
-		sharedBefore := false
-		for _, c := range before {
-			if c >= 2 {
-				sharedBefore = true
-			}
-		}
-		e.Drain()
-		r := s.step(i)
-		observed := e.Drain()
-		s.scan()
-		after := e.Refs(s.nodes)
-		s.hist = append(s.hist, fmt.Sprintf("%s   deleted{%s}", r.desc, fdrv.ShortList(observed)))
+	return &driver{s: s, ever: map[string]bool{}}
+}
 
-		// safety: nothing handed to deletion (in this step or earlier: the harness
-		// never re-introduces a file id) is referenced by a live name
-		obs := map[string]bool{}
-		for _, f := range observed {
-			obs[f] = true
-			if !ever[f] {
-				ever[f] = true
-				everList = append(everList, f)
-			}
-		}
-		for _, f := range everList {
-			if after[f] > 0 {
-				var who []string
-				for _, n := range s.nodes {
-					if n.Found == nil {
-						continue
-					}
-					for _, g := range e.ChunkFids(n.Found.Chunks) {
-						if g == f {
-							who = append(who, s.rel(n.Path))
-							break
-						}
-					}
-				}
-				when := "in this step"
-				if !obs[f] {
-					when = "in an earlier step"
-				}
-				t.Fatalf("SAFETY: after step %d chunk %s, handed to deletion %s, is referenced by %v\n%s", i, fdrv.Short(f), when, who, s.history())
-			}
-		}
-		// completeness: what a data-deleting step unreferenced has been handed to deletion
-		if r.requestsData {
-			for _, f := range sortedKeys(before) {
-				if after[f] == 0 && !obs[f] {
-					t.Fatalf("COMPLETENESS: step %d removed the last reference to chunk %s and requested data deletion, but the chunk was not handed to deletion\n%s", i, fdrv.Short(f), s.history())
-				}
-			}
-		}
-		dropped := false
-		for f := range before {
-			if after[f] == 0 {
-				dropped = true
-			}
-		}
-		if (len(observed) > 0 || dropped) && (sharedBefore || r.sharedContext) {
-			nontrivial = true
-		}
-		if sharedBefore && (len(observed) > 0 || dropped) {
-			s.classes["delete-while-hardlink-shared"] = true
+// do executes one step (given as a function) and applies the oracle.
+func (d *driver) do(i int, step func() stepResult) {
+	s, e := d.s, d.s.e
+	before := e.Refs(s.nodes)
+	sharedBefore := false
+	for _, c := range before {
+		if c >= 2 {
+			sharedBefore = true
 		}
 	}
+	e.Drain()
+	r := step()
+	observed := e.Drain()
+	s.scan()
+	after := e.Refs(s.nodes)
+	s.hist = append(s.hist, fmt.Sprintf("%s   deleted{%s}", r.desc, fdrv.ShortList(observed)))
+
+	// safety: nothing handed to deletion (in this step or earlier: the harness
+	// never re-introduces a file id) is referenced by a live name
+	obs := map[string]bool{}
+	for _, f := range observed {
+		obs[f] = true
+		if !d.ever[f] {
+			d.ever[f] = true
+			d.everList = append(d.everList, f)
+		}
+	}
+	for _, f := range d.everList {
+		if after[f] > 0 {
+			var who []string
+			for _, n := range s.nodes {
+				if n.Found == nil {
+					continue
+				}
+				for _, g := range e.ChunkFids(n.Found.Chunks) {
+					if g == f {
+						who = append(who, s.rel(n.Path))
+						break
+					}
+				}
+			}
+			when := "in this step"
+			if !obs[f] {
+				when = "in an earlier step"
+			}
+			s.fatalf("SAFETY: after step %d chunk %s, handed to deletion %s, is referenced by %v\n%s", i, fdrv.Short(f), when, who, s.history())
+		}
+	}
+	// completeness: what a data-deleting step unreferenced has been handed to deletion
+	if r.requestsData {
+		for _, f := range sortedKeys(before) {
+			if after[f] == 0 && !obs[f] {
+				s.fatalf("COMPLETENESS: step %d removed the last reference to chunk %s and requested data deletion, but the chunk was not handed to deletion\n%s", i, fdrv.Short(f), s.history())
+			}
+		}
+	}
+	dropped := false
+	for f := range before {
+		if after[f] == 0 {
+			dropped = true
+		}
+	}
+	if (len(observed) > 0 || dropped) && (sharedBefore || r.sharedContext) {
+		d.nontrivial = true
+	}
+	if sharedBefore && (len(observed) > 0 || dropped) {
+		s.classes["delete-while-hardlink-shared"] = true
+	}
+}
+
+// finish records the case and removes its tree.
+func (d *driver) finish(prefix string) {
+	s := d.s
 	var cl []string
 	for c := range s.classes {
 		cl = append(cl, c)
@@ -601,10 +614,24 @@ func runHistory(t *rapid.T) {
 	case s.classes["update-keep-and-drop"]:
 		first = "keep-and-drop"
 	}
-	vlib.Case(strings.Join(s.hist, " ; "), nontrivial, append([]string{first}, cl...)...)
-	// leave the store small: remove the case's tree (not part of the checked history)
-	_ = e.Delete("/", strings.TrimPrefix(root, "/"), false, true, true)
-	e.Drain()
+	vlib.Case(prefix+strings.Join(s.hist, " ; "), d.nontrivial, append([]string{first}, cl...)...)
+	d.cleanup()
+}
+
+// cleanup removes the case's tree (not part of the checked history) to keep the store small.
+func (d *driver) cleanup() {
+	_ = d.s.e.Delete("/", strings.TrimPrefix(d.s.root, "/"), false, true, true)
+	d.s.e.Drain()
+}
+
+func runHistory(t *rapid.T) {
+	d := newDriver(t.Fatalf, t)
+	steps := rapid.IntRange(3, 14).Draw(t, "steps")
+	for i := 0; i < steps; i++ {
+		i := i
+		d.do(i, func() stepResult { return d.s.step(i) })
+	}
+	d.finish("")
 }
 
 func TestPropHistories(t *testing.T) {
